@@ -113,6 +113,14 @@ class Registry:
         if found_value == 'missing entry value':
             raise KeyError()
         return found_value
+A = 100
+_A = 7
+def accumulate(values):
+    running_total = 0
+    for each_value in values:
+        running_total += each_value
+        print('partial', running_total, running_total)
+    return running_total + A + _A
 constants = [2 + 3, 10 * 10, 1 << 8, 0xff & 0x0f, 16 * 1024, 16.0 * 1024, 1 | 1, True | True, 5 - 5, 5.0 - 5.0, 100 * 3, 100 * 3.0]
 where = path.join('a', 'b') + sep
 ''',
